@@ -97,3 +97,31 @@ def top_stmts_of(body):
     if b["tail"] is not None:
         nodes.append(b["tail"])
     return nodes
+
+
+def nested_range_build(n):
+    """`(0..d0).map(|_| (0..d1).map(|_| .. <elem> ..).collect()).collect()` -> ([end exprs outermost first], innermost elem node) or None"""
+    dims = []
+    cur = strip(n)
+    while True:
+        if not (cur is not None and cur.get("k") == "mcall" and cur["name"] == "collect"):
+            break
+        mp = strip(cur["recv"])
+        if not (mp.get("k") == "mcall" and mp["name"] == "map" and len(mp["args"]) == 1):
+            return None
+        rng = strip(mp["recv"])
+        if not (rng.get("k") == "struct" and rng["path"] == "std::ops::Range"):
+            return None
+        rf = dict((a, e) for a, e in rng["fs"])
+        if e4.lit_value(rf["start"]) != "0":
+            return None
+        dims.append(rf["end"])
+        cl = strip(mp["args"][0])
+        if cl.get("k") != "closure":
+            return None
+        cur = strip(cl["body"])
+        while cur.get("k") == "blk" and not cur["b"]["stmts"]:
+            cur = strip(cur["b"]["tail"])
+    if not dims:
+        return None
+    return dims, cur
